@@ -185,6 +185,8 @@ def run(tier, rnd, out):
     for c in lib.load_corpus("C17"): run_sequences(out, "corpus", c["ports"], [[tuple(a) for a in c["acts"]]])
     seqs = [list(s) for L in ((1, 2, 3) if tier == "quick" else (1, 2, 3, 4)) for s in itertools.product(alphabet, repeat=L)]
     seqs += [[rnd.choice(alphabet) for _ in range(rnd.randrange(4, 10))] for _ in range(150 if tier == "quick" else 1500)]
+    seqs += [[(0, 0), (1, 0), (0, 0), (4, 0), (4, 1)], [(0, 0), (1, 0), (0, 0), (1, 0), (0, 0), (4, 1), (4, 0)],
+             [(2, 1), (0, 0), (3, 1), (0, 0), (4, 0), (4, 1)], [(0, 0), (0, 0), (4, 0), (1, 0), (4, 0)], [(0, 0), (4, 0), (1, 0), (0, 0), (4, 0), (1, 0), (4, 0)]]
     run_sequences(out, "sequences-2-ports", 2, seqs)
     a3 = alphabet + [(2, 2), (3, 2), (4, 2)]
     seqs3 = [[rnd.choice(a3) for _ in range(rnd.randrange(2, 9))] for _ in range(60 if tier == "quick" else 1500)]
